@@ -122,6 +122,35 @@ def find_body_open(mask: str, k: int, hi: int = None) -> int:
     return -1
 
 
+def find_fn_body_open(mask: str, k: int, hi: int = None) -> int:
+    """body `{` (or `;`) of a fn whose parameter list ends before k.  In Verus text the signature may be followed by
+    requires/ensures/decreases clauses that contain `{` (match, blocks): those are skipped -- the body is the first
+    top-level `{` that is not inside a clause expression, i.e. the first one that starts its line or directly follows
+    the return type when no clause keyword has been seen."""
+    hi = len(mask) if hi is None else hi
+    d = 0
+    seen_clause = False
+    i = k
+    while i < hi:
+        ch = mask[i]
+        if ch in "([":
+            d += 1
+        elif ch in ")]":
+            d -= 1
+        elif d == 0 and ch == ";":
+            return i
+        elif d == 0 and mask.startswith(("requires", "ensures", "decreases", "recommends"), i) and (i == 0 or not (mask[i - 1].isalnum() or mask[i - 1] == "_")):
+            seen_clause = True
+        elif d == 0 and ch == "{":
+            ls = mask.rfind("\n", 0, i) + 1
+            at_line_start = mask[ls:i].strip() == ""
+            if not seen_clause or at_line_start:
+                return i
+            i = match_brace(mask, i)
+        i += 1
+    return -1
+
+
 def _norm(s: str) -> str:
     return re.sub(r"\s+", "", s)
 
